@@ -5,7 +5,7 @@ d=$(realpath "$1")
 cd "$(dirname "$0")/.." || exit 2
 ids=$(python3 -c "import json;m=json.load(open('$d/meta.json'));print(' '.join(m.get('properties',[])))")
 tree=/root/scratch/reftry_$$
-trap 'rm -rf $tree' EXIT
+trap 'rm -rf $tree; git -C "$PWD" checkout -q -- lean/FDAModel/Generated 2>/dev/null' EXIT
 rsync -a --exclude .git /repo/ $tree/
 (cd $tree && patch -p1 -s --no-backup-if-mismatch < "$d/patch.diff") || { echo "$d patch does not apply"; exit 2; }
 export VERIF_REPO=$tree
